@@ -570,11 +570,11 @@ def run(chk):
 META = {
     "category": "other",
     "engine": "EFFECT/FLOW (sibling cross-check, symbolic exponents)",
-    "technique": "reduction of the two closed-form propagators to (arguments, phase target, phase) tuples and symbolic (sympy) cancellation of the offset; sibling agreement of thermal propagation paths",
+    "technique": "abstract interpretation with recorder stand-ins and symbolic step / offset / prefactor (closed-form propagators, thermal paths, imaginary-time halves of the tangent-space runs, midpoint re-entry, purification on sites with concrete small shapes); matrix-expression domain for exact_propagator",
     "text": "Clause-only: decides the energy-shift / phase bookkeeping of the closed-form propagator (exercised by no test because offsets are zero "
             "there), the agreement of the exact and the general thermal paths, and the imaginary-time halves of the local solver pairs. That "
             "thermal expectation values equal Gibbs averages is numerical and not decided."
             ' Both thermal propagation paths build their generator from the Hamiltonian the job was given (abstract run); the tree auxiliary space is [P, Q(P)] with zero quantum numbers and consistent names.',
     "note": "In-place effects of evolve_exact on its input are decided under C13 (EFFECT); here the phase target is compared with the returned name.",
-    "design_ref": "DESIGN.md 3.1 (sibling cross-check), 3.5, 4 (C10)",
+    "design_ref": "DESIGN.md 3.1 (sibling cross-check), 3.5, 4 (C10); as built: 9.1, 9.3, 9.8",
 }
